@@ -217,9 +217,32 @@ def sibling_programs(tier):
 # ---------------------------------------------------------------------------------------------
 # (b) nesting: inner macro as operand value / inside a block capture / inside a handler
 # ---------------------------------------------------------------------------------------------
-def inner_texts(mac):
-    """(dsl text, reference text, extractor) of a small two-branch, two-step inner program whose sites start with `i`"""
+def inner_texts(mac, pre="i", operand_extra=None, cap_extra=None):
+    """(dsl text, reference text, extractor) of a small two-branch, two-step inner program whose sites start with `pre`;
+    operand_extra / cap_extra: None or a pair (dsl text, reference text) of an i32 expression added to the initial value of
+    branch 1 resp. bound inside the block capture of branch 1 (depth-3 nesting)"""
     is_try, is_async = mac in dsl.TRY, mac in dsl.ASYNC
+    if operand_extra or cap_extra or pre != "i":
+        def one(k):
+            oe = " + %s" % operand_extra[k] if operand_extra else ""
+            ce = "let q = %s; " % cap_extra[k] if cap_extra else "let q = 0; "
+            def val(e):
+                if is_try:
+                    e = "Ok::<i32, i32>(%s)" % e
+                return "ready(%s)" % e if is_async else e
+            op = "|>" if (is_try or is_async) else "->"
+            w = (lambda e: e)
+            if is_try and is_async:
+                op, w = "=>", (lambda e: "ready(Ok::<i32, i32>(%s))" % e)
+            return Program(
+                mac,
+                [
+                    Branch(O(val('lg("%s0.0.i", 7)' % pre)), [Op(op, [O('|v: i32| { ev("%s0.1.f", &v); %s }' % (pre, w("v + 1")))], deferred=True)]),
+                    Branch(O(val('lg("%s1.0.i", 30%s)' % (pre, oe))), [Op(op, [B('ev0("%sc.1.1.0"); %smove |v: i32| { ev("%s1.1.f", &v); %s }' % (pre, ce, pre, w("v * 2 + q")))], deferred=True)]),
+                ],
+                flavour="Res" if is_try else None,
+            )
+        return dsl.program_dsl(one(0)), dsl.program_ref(one(1)), ("xr" if is_try else "x2")
     def val(e):
         if is_try:
             e = "Ok::<i32, i32>(%s)" % e
@@ -335,6 +358,58 @@ def nesting_programs(tier):
                         # the reference of an async-spawn inner macro does not spawn: no runtime needed
                         pass
                 progs.append(Prog("nest/%s/%s/%s" % (outer, inner, pos), rb, mb, [[0]], "Proj", meta={"macro": outer, "dsl": d, "ref": r}))
+    return progs
+
+
+def nesting3_programs(tier):
+    """depth 3: every ordered TRIPLE of the 12 macros — the innermost macro inside the initial operand / inside a block capture of
+    the middle macro, which sits inside an operand / block capture / handler of the outer one. quick: all 1728 triples with the
+    position pair (capture, operand) and, for the sequential / thread-spawning / async representatives as middle macro, all six
+    position pairs; thorough: all triples x all six position pairs."""
+    progs = []
+    reps_mid = ("try_join", "spawn", "join_async", "try_async_spawn")
+    for outer in ALL_MACROS:
+        for mid in ALL_MACROS:
+            for inn in ALL_MACROS:
+                for pos1 in ("operand", "capture", "handler"):
+                    for pos2 in ("operand", "capture"):
+                        if tier == "quick" and not ((pos1, pos2) == ("capture", "operand") or (mid in reps_mid and inn in reps_mid)):
+                            continue
+                        # which thread evaluates what: tokio::spawn needs the runtime context of the executing thread
+                        ctx = True  # the harness thread has entered a runtime whenever a task-spawning macro takes part
+                        ok = True
+                        for mac, pos in ((outer, pos1), (mid, pos2), (inn, None)):
+                            tok = mac in dsl.ASYNC and mac in dsl.SPAWN
+                            thr = mac in dsl.SPAWN and mac not in dsl.ASYNC
+                            if tok and not ctx:
+                                ok = False
+                            if pos == "operand":
+                                ctx = True if tok else (False if thr else ctx)
+                        if not ok:
+                            continue
+                        jd, jr, jext = inner_texts(inn, pre="j")
+                        def wrapj(text):
+                            return "%s(bo(%s))" % (jext, text) if inn in dsl.ASYNC else "%s(%s)" % (jext, text)
+                        pair = (wrapj(jd), wrapj(jr))
+                        md, mr, mext = inner_texts(mid, pre="i", operand_extra=pair if pos2 == "operand" else None, cap_extra=pair if pos2 == "capture" else None)
+                        def wrapm(text):
+                            return "%s(bo(%s))" % (mext, text) if mid in dsl.ASYNC else "%s(%s)" % (mext, text)
+                        km = {"operand": None, "capture": None, "handler": None}
+                        kr = dict(km)
+                        km[pos1] = wrapm(md)
+                        kr[pos1] = wrapm(mr)
+                        pm = outer_program(outer, km["operand"], km["capture"], km["handler"])
+                        pr = outer_program(outer, kr["operand"], kr["capture"], kr["handler"])
+                        d = dsl.program_dsl(pm)
+                        r = dsl.program_ref(pr)
+                        fm = '\nformat!("{:?}", x)'
+                        if outer in dsl.ASYNC:
+                            rb, mb = "let x = bo(%s);%s" % (r, fm), "let x = bo(%s);%s" % (d, fm)
+                        else:
+                            rb, mb = "let x = %s;%s" % (r, fm), "let x = %s;%s" % (d, fm)
+                        if any(m in dsl.ASYNC and m in dsl.SPAWN for m in (outer, mid, inn)):
+                            mb = "let __rt = trt_mt(); let __g = __rt.enter();\n" + mb
+                        progs.append(Prog("nest3/%s/%s/%s/%s-%s" % (outer, mid, inn, pos1, pos2), rb, mb, [[0]], "Proj", meta={"macro": outer, "dsl": d, "ref": r}))
     return progs
 
 
